@@ -482,6 +482,21 @@ fn convert_stmts(
         .collect()
 }
 
+/// Payload of a `get_range` bound as `random_table::get_range` expects it. The bound is a
+/// self-determined expression, so it can be narrower than the element type: for a signed
+/// element type a signed bound is sign-extended to 64 bits first (otherwise `-3` on an `i64`
+/// handle, a 32-bit payload, would read back as 4294967293 at the element width).
+fn random_bound(value: &Value, elem_signed: bool) -> u64 {
+    let payload = value.payload_u64();
+    let width = value.width();
+    let negative = width > 0 && width < 64 && (payload >> (width - 1)) & 1 == 1;
+    if elem_signed && value.signed() && negative {
+        payload | (u64::MAX << width)
+    } else {
+        payload
+    }
+}
+
 pub fn run_testbench(sim: &mut Simulator, stmts: &[TestbenchStatement]) -> TestResult {
     assert_buffer::reset();
     crate::file_table::reset();
@@ -982,8 +997,8 @@ fn exec_one(sim: &mut Simulator, stmt: &TestbenchStatement) -> ExecResult {
             ret,
         } => {
             sim.ensure_comb_updated();
-            let min_v = min.eval(&mut sim.mask_cache).payload_u64();
-            let max_v = max.eval(&mut sim.mask_cache).payload_u64();
+            let min_v = random_bound(&min.eval(&mut sim.mask_cache), *signed);
+            let max_v = random_bound(&max.eval(&mut sim.mask_cache), *signed);
             let value = crate::random_table::get_range(*handle, min_v, max_v, *width, *signed);
             if let Some((ret, _)) = ret {
                 sim.set_var_by_id(ret, value);
